@@ -33,6 +33,7 @@ func runC14(c *Ctx, r *Report) {
 	c14R5(c, r, "C14.R5")
 	c14Region(c, r, "C14.R6")
 	c14Clock(c, r, "C14.R7")
+	c14Tables(c, r, "C14.R8")
 }
 
 // fieldAccesses returns for every function the struct fields it loads and stores.
